@@ -17,6 +17,7 @@ LAY-DICT) and (b) an inventory of every loop / comprehension with the layout of 
 from __future__ import annotations
 
 import ast
+import re
 from typing import Any, Dict, List, Optional
 
 from . import core, keymat, minieval, scenarios, witness
@@ -209,7 +210,7 @@ def check_iterations(ctx: core.Ctx, g: GenInfo, rule="GEN-ITER"):
             ctx.oblige("SLOT-AGREE", where, f"{short} enumerates {lay}", role == exp, file=i["file"], func=func, construct=f"role of {short}",
                        msg=f"{short} enumerates {lay}; the fields of this type are {want_layout(exp)}", line=i["line"])
             per_type.setdefault(exp, []).append(short)
-    ctx.floor(rule, n, 40, "iterations in generator code classified")
+    ctx.floor(rule, n, 28, "iterations in generator code classified (48 on the tree this was written for; shared helpers reduce the count)")
     # every fragment in the table was seen (a function that stopped iterating a role list is a vanished anchor)
     seen = {s for v in per_type.values() for s in v}
     missing = [f for f in FRAG_ROLE if f not in seen]
@@ -371,18 +372,19 @@ def check_subs(ctx: core.Ctx, g: GenInfo):
     iter_lay = {id(i["node"]): g.layout(i["source"]) for i in g.it.iterations if i["file"] == CPPF}
     mod = g.p.modules["cpp"]
     n = 0
+    unread: List[str] = []           # substitution sets the source-form evaluator could not read (decided on the constructed generator instead)
     for (cls, fname), (want, need_dt) in expect.items():
         c = core.find_class(mod, cls)
         fn = core.find_func(c, fname) if c else None
         if fn is None:
-            ctx.error(f"anchor missing: cpp.{cls}.{fname}")
+            unread.append(f"cpp.{cls}.{fname} does not exist under that name")
             continue
         ctx.functions.append(f"cpp.{cls}.{fname}")
         where = f"{CPPF}:{cls}.{fname}"
         subs_names = {ast.unparse(c2.args[0]) for c2 in ast.walk(fn) if isinstance(c2, ast.Call) and isinstance(c2.func, ast.Attribute)
                       and c2.func.attr == "subs" and c2.args}
         if not subs_names:
-            ctx.error(f"{where}: no `.subs(...)` call found")
+            unread.append(f"{where}: no `.subs(...)` call in the function itself")
             continue
         from . import subseval
         def iter_role(node):
@@ -404,7 +406,7 @@ def check_subs(ctx: core.Ctx, g: GenInfo):
                 bad.append(f"({s_[-1]}, {d_[-1]})")
         if bad:
             for b in bad:
-                ctx.error(f"{where}: substitution entry `{b}` is not an enumerated idiom")
+                unread.append(f"{where}: substitution entry `{b[:70]}` is not an enumerated source form")
             continue
         for h in ev.inlined:
             ctx.functions.append(f"cpp.{h}")
@@ -439,14 +441,75 @@ def check_subs(ctx: core.Ctx, g: GenInfo):
         if need_dt:
             ctx.oblige("SUBS", where, f"dt symbol -> Symbol('{dtname}')", bool(dt_ok), file=CPPF, func=f"{cls}.{fname}", construct="subs_set dt",
                        msg=f"the model's time-step symbol is not substituted by the C++ parameter name `{dtname}`", line=fn.lineno)
-    ctx.floor("SUBS", n, 6, "_translate_* substitution sets")
+    n += subs_on_constructed(ctx, w, dtname, unread)
+    ctx.floor("SUBS", n, 3, "substitution sets judged (source form, per _translate_* function, + the distinct lists of the constructed generator)")
+
+
+def subs_on_constructed(ctx: core.Ctx, w: "witness.Witness", dtname, unread) -> int:
+    """SUBS on the generator as constructed (fv.witness.real_generator: the repo's own cpp.ExtendedKalmanFilter / cpp.Model built by evaluating
+    their __init__ on a witness model): every substitution list handed to expr.subs() is recorded and judged as a concrete list --
+    each model symbol is replaced by a fresh accessor Symbol `<object>.<name>()`, one object per role within a list, the time step by the C++
+    parameter name and last.  (That the object is the right one for the emitted function, and that no role is left out, is what the witness
+    translation unit's type check decides: an unsubstituted or wrongly prefixed symbol is an undeclared identifier / a missing member.)"""
+    n = 0
+    for v in (witness.Valuation(True, True), witness.Valuation(True, True, ekf=False)):
+        witness.WExpr.log = []
+        gen = witness.real_generator(v, w)
+        if v.ekf:
+            list(gen.reading_types())        # the sensor translators run when the reading types are built
+        lists = witness.WExpr.log
+        witness.WExpr.log = []
+        seen = set()
+        for lst in lists:
+            key = tuple((str(a), str(b)) for a, b in lst)
+            if key in seen:
+                continue
+            seen.add(key)
+            n += 1
+            where = f"{CPPF}:{'ExtendedKalmanFilter' if v.ekf else 'Model'} [constructed on the witness model]"
+            bad, prefix, order = [], {}, []
+            for src, dst in lst:
+                role = getattr(src, "role", None)
+                order.append(role or str(src))
+                if role in ("STATE", "CALIB", "CONTROL"):
+                    if not isinstance(dst, witness.WSym):
+                        bad.append(f"{src} -> <not an accessor symbol: {str(dst)[:40]}>")
+                        continue
+                    m_ = re.fullmatch(r"(.+\.)" + re.escape(src.name) + r"\(\)", dst.name)
+                    if not m_:
+                        bad.append(f"{src} -> `{dst.name}` (not `<object>.{src.name}()`)")
+                        continue
+                    if prefix.setdefault(role, m_.group(1)) != m_.group(1):
+                        bad.append(f"{role} symbols read through both `{prefix[role]}` and `{m_.group(1)}`")
+                elif role == "DT":
+                    if not (isinstance(dst, witness.WSym) and dst.name == dtname):
+                        bad.append(f"time step -> `{dst}` (the C++ parameter is `{dtname}`)")
+                else:
+                    bad.append(f"`{src}` is not a symbol of the model")
+            ctx.oblige("SUBS", where, f"substitution list {order[:12]} -> {prefix}", not bad, file=CPPF, func="<constructed generator>",
+                       construct="subs list (constructed): " + "; ".join(bad)[:80],
+                       msg=f"a substitution list of the constructed generator does not map model symbols to accessor symbols: {'; '.join(bad[:4])}")
+            if "DT" in order:
+                ctx.oblige("SUBS", where, f"time-step pair is last in {order[:12]}", order[-1] == "DT", file=CPPF, func="<constructed generator>",
+                           construct="subs list order (constructed)",
+                           msg="the time-step pair (model dt -> Symbol('dt')) is not the last entry of the sequential substitution: a control / calibration "
+                               "symbol spelled `dt` then captures the freshly introduced Symbol('dt')")
+        rc, diag, _ = w.compile(v)
+        first = diag[0] if diag else {"where": "?", "message": "", "text": ""}
+        ctx.oblige("SUBS", f"witness {v.tag}", f"the emitted expressions type-check (rc={rc})", rc == 0, file=first["where"].split(":")[0], func=v.tag,
+                   construct=("witness: " + first["message"])[:120],
+                   msg=f"the code emitted for the witness model does not type-check: {first['where']}: {first['message']}   [{first['text']}] -- a model symbol "
+                       f"that is not (or wrongly) substituted is an undeclared identifier / a missing member")
+    if unread:
+        ctx.note(f"SUBS: {len(unread)} substitution set(s) not readable in source form, decided on the constructed generator: " + "; ".join(unread[:3]))
+    return n
 
 
 def check_obligations(ctx: core.Ctx, g: GenInfo):
     it = g.it
     scenarios.transfer(it, ctx, rules={"LAY-JAC", "LAY-TGT", "LAY-COVIDX", "LAY-DICT"}, files={CPPF})
-    ctx.floor("LAY-JAC", scenarios.count(it, "LAY-JAC"), 3, "jacobian(i, j) target sites (process, control, sensor)")
-    ctx.floor("LAY-TGT", scenarios.count(it, "LAY-TGT"), 3, "`double <name>` = model[<name>] sites (EKF process model, sensor model, Model)")
+    ctx.floor("LAY-JAC", scenarios.count(it, "LAY-JAC"), 2, "jacobian(i, j) target sites (process / control -- possibly one shared translator -- and sensor)")
+    ctx.floor("LAY-TGT", scenarios.count(it, "LAY-TGT"), 1, "`double <name>` = model[<name>] sites (EKF process model, sensor model, Model -- possibly one shared translator)")
     ctx.floor("LAY-COVIDX", scenarios.count(it, "LAY-COVIDX"), 1, "sensor covariance(i, j) site")
     # Jacobian declared dimensions come from the witness type check (C02/C07 witnesses)
     mod = it.p.modules["cpp"]
